@@ -3,13 +3,19 @@
 ** ledger / total-order / equality+hash / failed-operation oracles are added on the same
 ** state graph).
 **
-** Parameters: keys=int|wideint|str|probe  vals=int|probe|blob  nkeys=N (<=16)  nvals=1|2
+** Parameters: keys=int|wideint|str|probe|picky  vals=int|probe|blob|picky  nkeys=N (<=16)  nvals=1|2
 **             (blob = plain 20-byte struct without any class instance; every byte of every
 **              binding is compared with the reference after every operation; key and value
 **              types of different sizes: int->probe 8/24, probe->int 24/8, str->probe 8/24,
 **              int->blob 8/20, probe->blob 24/20)
 **             (wideint = Int keys 0, 1, -1, 2^31, -2^31, 2^32, -2^32, 2^31-1, 2^32+1, INT64_MAX,
 **              INT64_MIN, 2^62: pairs 2^31 and 2^32 apart; the reference order is the int64 order)
+**             (picky = Probe's twin - same layout, same ledger - whose Assign raises ValueError for
+**              the value 77 before it changes anything.  With picky values the alphabet gains
+**              set(k, refused value) for every key (new and existing), with picky keys
+**              set(refused key, v): ValueError, tree unchanged node for node and binding for
+**              binding, ledger unchanged.  leaky=1 also offers set(NEW key, refused value) when
+**              the key type owns resources - see proposed/tree-set-refused-value-leaks-key.md)
 **             prop=C03|C05|C09|C10|C12
 **             two=0|1   (second tree B: copy/assign/swap/del between A and B)
 **             mode=bfs|ladder|pairs   depth=N (0 = fixpoint)  memo=0|1
@@ -42,6 +48,35 @@
 #include "Tree.c"
 #include "vf_bfs.h"
 #include "vf_probe.h"
+
+/* ---- Picky: Probe's twin (same layout, same ledger) whose assign refuses one value ---------- */
+#define PICKY_POISON 77
+struct Picky { int64_t val; uint64_t token; char* block; };
+extern var Picky;
+static int64_t Picky_Value_Of(var obj) {
+  if (obj == NULL) return 0;
+  int64_t v = (type_of(obj) is Picky or type_of(obj) is Probe) ? ((struct Probe*)obj)->val : c_int(obj);
+  /* refuse BEFORE anything is constructed or changed: a well-behaved element type */
+  if (v == PICKY_POISON) throw(ValueError, "Picky refuses the value %i", $I(v));
+  return v;
+}
+static void Picky_New(var self, var args) {
+  int64_t v = len(args) >= 1 ? Picky_Value_Of(get(args, $I(0))) : 0;
+  Probe_Ensure(self, "construct"); ((struct Probe*)self)->val = v;
+}
+static void Picky_Assign(var self, var obj) {
+  int64_t v = Picky_Value_Of(obj);
+  Probe_Ensure(self, "assign"); ((struct Probe*)self)->val = v;
+}
+var Picky = Cello(Picky,
+  Instance(New,    Picky_New, Probe_Del),
+  Instance(Assign, Picky_Assign),
+  Instance(Cmp,    Probe_Cmp),
+  Instance(Hash,   Probe_Hash),
+  Instance(C_Int,  Probe_C_Int),
+  Instance(Show,   Probe_Show, NULL));
+static int kpicky, vpicky, leaky;     /* keys=picky / vals=picky are kind 2 (Probe layout and ledger) with the type Picky */
+static var refusedkey, refusedval;     /* Picky objects carrying the refused value */
 
 #define MAXK 16
 static var* R;                  /* stack-resident root slots (scanned by the collector) */
@@ -96,15 +131,15 @@ static int model_equal(struct model* a, struct model* b) {
   return 1;
 }
 
-static const char* kname(void) { return kkind == 0 ? (wide ? "wideint" : "int") : kkind == 1 ? "str" : "probe"; }
-static const char* vname(void) { return vkind == 2 ? "probe" : vkind == 3 ? "blob" : "int"; }
+static const char* kname(void) { return kkind == 0 ? (wide ? "wideint" : "int") : kkind == 1 ? "str" : kpicky ? "picky" : "probe"; }
+static const char* vname(void) { return vkind == 2 ? (vpicky ? "picky" : "probe") : vkind == 3 ? "blob" : "int"; }
 
 /* name the kind of operation in progress: it is the middle part of every site label, and
 ** (through vf.phase) of the label of a crash / hang / sanitizer report during or after it */
 static char phasebuf[96];
 static void kind(const char* k) {
   lastkind = k;
-  snprintf(phasebuf, sizeof phasebuf, "tree/%s-%s/%s", kkind == 0 ? (wide ? "wideint" : "int") : kkind == 1 ? "str" : "probe", vkind == 2 ? "probe" : vkind == 3 ? "blob" : "int", k);
+  snprintf(phasebuf, sizeof phasebuf, "tree/%s-%s/%s", kname(), vname(), k);
   vf.phase = phasebuf;
 }
 
@@ -168,9 +203,13 @@ static void del_tree(var t, int managed) { if (managed) del(t); else del_raw(t);
 
 static void make_carriers(void) {
   for (int i = 0; i < K; i++) {
-    keyobj[i] = kkind == 0 ? (var)new_raw(Int, $I(kval[i])) : kkind == 1 ? (var)new_raw(String, $S(skeys[i])) : (var)new_raw(Probe, $I(kval[i]));
+    keyobj[i] = kkind == 0 ? (var)new_raw(Int, $I(kval[i])) : kkind == 1 ? (var)new_raw(String, $S(skeys[i])) : new_raw_with(kpicky ? Picky : Probe, tuple($I(kval[i])));
   }
-  for (int v = 0; v < 2; v++) valobj[v] = vkind == 2 ? (var)new_raw(Probe, $I(v)) : (var)new_raw(Int, $I(v));
+  for (int v = 0; v < 2; v++) valobj[v] = vkind == 2 ? new_raw_with(vpicky ? Picky : Probe, tuple($I(v))) : (var)new_raw(Int, $I(v));
+  if (kpicky || vpicky) {
+    refusedkey = new_raw(Picky, $I(0)); ((struct Picky*)refusedkey)->val = PICKY_POISON;
+    refusedval = new_raw(Picky, $I(0)); ((struct Picky*)refusedval)->val = PICKY_POISON;
+  }
   if (vkind == 3 && blobobj[0][0] == NULL) {
     for (int i = 0; i < K; i++) for (int v = 0; v < 2; v++) { blobobj[i][v] = new_raw(Blob); blob_fill(((struct Blob*)blobobj[i][v])->b, i, v); }
   }
@@ -217,6 +256,7 @@ static void reset(void) {
   if ((kkind == 2 || vkind == 2 || cross_op || table_op) && vf_led_next > VF_LED_MAX / 2 && vf_led_live == led_base && !vf_led_err[0]) {
     for (int i = 0; i < K; i++) del_raw(keyobj[i]);
     for (int v = 0; v < 2; v++) del_raw(valobj[v]);
+    if (kpicky || vpicky) { del_raw(refusedkey); del_raw(refusedval); }
     drop_foreign_carriers();
     vf_led_reset();
     make_carriers();
@@ -592,7 +632,10 @@ static void build_alphabet(void) {
   if (propC12) for (int o = OP_F_GET_WRONGKEY; o <= OP_F_LAST; o++) misctab[nmisc++] = o;
 }
 
-static int nops_total(void) { return NV * K + K + nmisc; }
+/* after the miscellaneous operations: set(k_i, refused value) for every key (picky values), set(refused key, v) (picky keys) */
+static int nrefval(void) { return vpicky ? K : 0; }
+static int nrefkey(void) { return kpicky ? 1 : 0; }
+static int nops_total(void) { return NV * K + K + nmisc + nrefval() + nrefkey(); }
 
 static void opname(int op, char* buf, size_t cap) {
   /* called by the explorer once per history element per transition: no printf here */
@@ -608,6 +651,8 @@ static void opname(int op, char* buf, size_t cap) {
     return;
   }
   int m = op - NV * K - K;
+  if (m >= nmisc && m < nmisc + nrefval()) { snprintf(buf, cap, "set(k%d,refused value)", m - nmisc); return; }
+  if (m >= nmisc + nrefval() && m < nmisc + nrefval() + nrefkey()) { snprintf(buf, cap, "set(refused key,0)"); return; }
   snprintf(buf, cap, "%s", (m >= 0 && m < nmisc) ? miscname[misctab[m]] : "?");
 }
 
@@ -650,6 +695,23 @@ static int apply_inner(int op) {
     return expect_fail(e, KeyError, KeyError, KeyError, "rem of an absent key", before, lb);
   }
   int mi = op - NV * K - K;
+  if (mi >= nmisc && mi < nmisc + nrefval()) {
+    /* the value type's own assign refuses the value: nothing may have been linked, counted or overwritten */
+    int k = mi - nmisc;
+    if (!MA.present[k] && kkind != 0 && !leaky) return VF_SKIP;   /* see proposed/tree-set-refused-value-leaks-key.md */
+    kind(MA.present[k] ? "set-existing-refused-value" : "set-new-refused-value");
+    canon(before, sizeof before);
+    int64_t lb = vf_led_live;
+    e = VF_CATCH(set(TA, keyobj[k], refusedval));
+    return expect_fail(e, ValueError, ValueError, ValueError, MA.present[k] ? "set(existing key, value its type refuses)" : "set(new key, value its type refuses)", before, lb);
+  }
+  if (mi >= nmisc + nrefval() && mi < nmisc + nrefval() + nrefkey()) {
+    kind("set-refused-key");
+    canon(before, sizeof before);
+    int64_t lb = vf_led_live;
+    e = VF_CATCH(set(TA, refusedkey, valarg(0, 0)));
+    return expect_fail(e, ValueError, ValueError, ValueError, "set(key its type refuses, value)", before, lb);
+  }
   if (mi < 0 || mi >= nmisc) return VF_SKIP;
   int m = misctab[mi];
   size_t l = len(TA);
@@ -1221,8 +1283,10 @@ int main(int argc, char** argv) {
   R = roots;
 
   const char* ks = vf_param("keys", "int"), *vs = vf_param("vals", "int");
-  kkind = strcmp(ks, "str") == 0 ? 1 : strcmp(ks, "probe") == 0 ? 2 : 0;
-  vkind = strcmp(vs, "probe") == 0 ? 2 : strcmp(vs, "blob") == 0 ? 3 : 0;
+  kpicky = strcmp(ks, "picky") == 0; vpicky = strcmp(vs, "picky") == 0;
+  leaky = (int)vf_param_i("leaky", 0);
+  kkind = strcmp(ks, "str") == 0 ? 1 : (strcmp(ks, "probe") == 0 || kpicky) ? 2 : 0;
+  vkind = (strcmp(vs, "probe") == 0 || vpicky) ? 2 : strcmp(vs, "blob") == 0 ? 3 : 0;
   K = (int)vf_param_i("nkeys", 6);
   if (K > MAXK) K = MAXK;
   if (K < 1) K = 1;
@@ -1245,8 +1309,8 @@ int main(int argc, char** argv) {
   if (kkind == 2 || vkind == 2 || cross_op || table_op) propC05 = 1;     /* the ledger oracle is on whenever Probe elements are stored */
   vf_led_reset();
 
-  KT = kkind == 0 ? Int : kkind == 1 ? String : Probe;
-  VT = vkind == 2 ? Probe : vkind == 3 ? Blob : Int;
+  KT = kkind == 0 ? Int : kkind == 1 ? String : kpicky ? Picky : Probe;
+  VT = vkind == 2 ? (vpicky ? Picky : Probe) : vkind == 3 ? Blob : Int;
 
   if (vf_param_is("mode", "ladder", "bfs")) {
     if (kkind == 2) { kkind = 0; KT = Int; }
